@@ -319,18 +319,19 @@ grp_ts_valid(void) {
 	static const long AF[] = { 0, 1, -7, -6, -5, -4, -1, 255 }; /* negative: pkt_size + value */
 	static const uint8_t TID[] = { 0x00, 0x01, 0x03, 0x42, 0x4e, 0xff };
 	static const uint8_t FLG[] = { 0x80, 0x40, 0xc0, 0x00 };
-	int sz, sb, pid, ac, af, tid, fl;
+	static const uint8_t HB[] = { 0x00, 0x40, 0xc0, 0x20 };	/* byte 1 above the PID: payload unit start / transport error / priority */
+	int sz, sb, pid, ac, af, tid, fl, hb;
 	size_t afl, pos;
 
 	vh_set_describer(c13_describe_ts);
 	p_off = 0;
 	for (sz = 0; sz < 8; sz ++) for (sb = 0; sb < 2; sb ++) for (pid = 0; pid < 7; pid ++) for (ac = 0; ac < 4; ac ++)
-	for (af = 0; af < 8; af ++) for (tid = 0; tid < 6; tid ++) for (fl = 0; fl < 4; fl ++) {
+	for (af = 0; af < 8; af ++) for (tid = 0; tid < 6; tid ++) for (fl = 0; fl < 4; fl ++) for (hb = 0; hb < 4; hb ++) {
 		if (!BEGIN("mpeg2_ts_pkt_is_valid"))
 			continue;
 		memset(g_msg, 0xff, 256);
 		g_msg[0] = (uint8_t)(sb ? 0x46 : 0x47);
-		g_msg[1] = (uint8_t)(PID[pid] >> 8); g_msg[2] = (uint8_t)PID[pid];
+		g_msg[1] = (uint8_t)((PID[pid] >> 8) | HB[hb]); g_msg[2] = (uint8_t)PID[pid];	/* with the start indicator set the first payload byte is the pointer field */
 		g_msg[3] = (uint8_t)(ac << 4);	/* afe = bit 5, cp = bit 4 */
 		afl = (size_t)((AF[af] < 0) ? (long)SZ[sz] + AF[af] : AF[af]) & 0xff;
 		g_msg[4] = (uint8_t)afl;
